@@ -569,14 +569,15 @@ Qed.
 Record step_alive_facts (s : sys) (i : stepin) (s' : sys) (o : sobs) : Prop := {
   saf_results : forall evs, chk_results false (in_calls i) (s_next s) (so_results o) 0 evs = true;
   saf_resolves : chk_resolves (accepted (in_calls i) (s_next s) (so_results o)) (so_exited o) (so_events o) = true;
-  saf_shutdown : chk_shutdown (s_d s) (in_found i) (accepted (in_calls i) (s_next s) (so_results o)) o = true;
+  saf_shutdown : chk_shutdown (mark (s_d s) (in_announced i)) (in_found i)
+                   (accepted (in_calls i) (s_next s) (so_results o)) o = true;
   saf_stuck : s_stuck s' = false;
   saf_items : q_items (s_chan s') = [];
   saf_next : s_next s' = s_next s + N.of_nat (length (in_calls i));
   saf_gone : q_gone (s_chan s') = so_exited o;
   saf_seen : shutdown_seen o = so_exited o;
   saf_d : so_exited o = false ->
-          s_d s' = fst (exec_seq (fst (arrive (s_d s) (in_found i)))
+          s_d s' = fst (exec_seq (fst (arrive (mark (s_d s) (in_announced i)) (in_found i)))
                                  (before_exit (accepted (in_calls i) (s_next s) (so_results o)))) }.
 
 Lemma step_alive s i s' o :
@@ -592,14 +593,15 @@ Proof.
   destruct (do_calls_alive (in_calls i) [] nxt q1 rs o0 W E) as (Eq & Eo & Cr). subst q1 o0.
   cbn [q_gone q_items orb app] in H.
   remember (accepted (in_calls i) nxt rs) as q eqn:Hq.
-  remember (iterate d (in_found i) q) as r eqn:Hr.
+  set (dm := mark d (in_announced i)) in *.
+  remember (iterate dm (in_found i) q) as r eqn:Hr.
   injection H as Hs' Ho. subst s' o. cbn [so_stuck] in Hs.
-  assert (Hst : it_stuck (iterate d (in_found i) q) = false) by (rewrite <- Hr; exact Hs).
-  destruct (iterate_unstuck_out d (in_found i) q Hst) as (oo & Eout & Edr & Erest).
+  assert (Hst : it_stuck (iterate dm (in_found i) q) = false) by (rewrite <- Hr; exact Hs).
+  destruct (iterate_unstuck_out dm (in_found i) q Hst) as (oo & Eout & Edr & Erest).
   rewrite <- Hr in Eout, Edr, Erest.
-  pose proof (resolves_ok (fst (arrive d (in_found i))) q (snd (arrive d (in_found i)))) as R.
+  pose proof (resolves_ok (fst (arrive dm (in_found i))) q (snd (arrive dm (in_found i)))) as R.
   rewrite Edr in R.
-  destruct (shutdown_ok d (in_found i) q rs _ _ _ _ Edr) as (S1 & S2 & S3).
+  destruct (shutdown_ok dm (in_found i) q rs _ _ _ _ Edr) as (S1 & S2 & S3).
   rewrite Hs, Eout.
   constructor; cbn [s_chan s_next s_d s_stuck q_gone q_items so_results so_events so_goodbyes so_exited];
     rewrite <- ?Hq.
@@ -801,7 +803,7 @@ Theorem nothing_behind_exit_executes d pre x post : no_exit pre ->
   (fst (exec_seq d pre),
    snd (exec_seq d pre) ++ cleanup_events (fst (exec_seq d pre)) ++ dropped post
      ++ drop_all (fst (exec_seq d pre)) ++ [(x, EShutdown); (x, EClosed)],
-   exec_seq_gb d pre ++ d_services (fst (exec_seq d pre)), true)
+   exec_seq_gb d pre ++ cleanup_goodbyes (fst (exec_seq d pre)), true)
   /\ Forall (fun p => snd p = EClosed) (dropped post).
 Proof.
   intros N. split; [|apply dropped_only_closed]. rewrite (drain0_at_exit d pre x post N). reflexivity.
@@ -886,7 +888,8 @@ Theorem cleanup_exactly_once d found q :
   /\ NoDup (map fst (d_queriers d1)) /\ NoDup (map fst (d_resolvers d1)).
 Proof.
   intros H. cbn zeta. destruct (exec_seq_dinv q _ (arrive_dinv found d H)) as (A & B & C).
-  repeat split; try assumption. unfold cleanup_events. rewrite map_app. reflexivity.
+  repeat split; try assumption; [apply NoDup_filter; exact A|].
+  unfold cleanup_events. rewrite map_app. reflexivity.
 Qed.
 
 (* every state the model can reach satisfies dinv *)
@@ -901,12 +904,15 @@ Proof.
     destruct b; [exact H1|]. simpl. apply IH. exact H1.
 Qed.
 
+Lemma mark_dinv d ann : dinv d -> dinv (mark d ann).
+Proof. intros H. exact H. Qed.
+
 Lemma step_dinv s i : dinv (s_d s) -> dinv (s_d (fst (step s i))).
 Proof.
   intros H. unfold step. destruct (do_calls (s_chan s) (in_calls i) (s_next s)) as [[q1 rs] o0].
   destruct (q_gone q1 || s_stuck s); simpl; [exact H|].
-  unfold iterate. pose proof (arrive_dinv (in_found i) (s_d s) H) as H0.
-  destruct (arrive (s_d s) (in_found i)) as [d0 oa]. simpl in H0.
+  unfold iterate. pose proof (arrive_dinv (in_found i) _ (mark_dinv (s_d s) (in_announced i) H)) as H0.
+  destruct (arrive (mark (s_d s) (in_announced i)) (in_found i)) as [d0 oa]. simpl in H0.
   destruct (deliver [] oa) as [[o c] b]. destruct b; [exact H0|]. simpl. apply drain_dinv. exact H0.
 Qed.
 
@@ -1047,9 +1053,9 @@ Qed.
 
 Definition ty_x : bytes := [95;120;46;95;116;99;112;46;108;111;99;97;108;46].    (* _x._tcp.local. *)
 Definition stuck_history : list stepin :=
-  [ mkIn [] [CBrowse ty_x false];                    (* channel 0 *)
-    mkIn [(ty_x, 10)] [CShutdown; CStatus];          (* channels 1, 2: ten ServiceFound, then shutdown *)
-    mkIn [] [CStatus; CMetrics] ].                   (* channels 3, 4 *)
+  [ mkIn [] [CBrowse ty_x false] [];                 (* channel 0 *)
+    mkIn [(ty_x, 10)] [CShutdown; CStatus] [];       (* channels 1, 2: ten ServiceFound, then shutdown *)
+    mkIn [] [CStatus; CMetrics] [] ].                (* channels 3, 4 *)
 
 (* the shutdown call and every later call return Ok, yet nothing is ever read from their
    reply channels, and the daemon never ends: the clean-up blocks on the full listener *)
